@@ -46,16 +46,20 @@ def run(tier, corrupt=False):
                 if r["exc"] == "" and r["prog"] in acc:
                     ok_objs.setdefault(r["prog"], []).append(r["obj"])
             cases, meta = [], []
+            model_modes = {}
+            for r in sers:
+                if r["exc"] == "" and r["fuel"] == -1:
+                    model_modes[(r["prog"], r["san0"], json.dumps(r["obj"], sort_keys=True))] = r["modes"]
             for prog, objs in ok_objs.items():
                 for oi, obj in enumerate(objs):
                     for san0 in (False, True):
                         for fuel in [-1] + list(range(nf)):
                             cases.append({"kind": "ser", "prog": prog, "san0": san0, "fuel": fuel, "obj": obj, "salt": oi})
-                            meta.append(("ser", prog, san0, fuel, obj))
+                            meta.append(("ser", prog, san0, fuel, obj, model_modes.get((prog, san0, json.dumps(obj, sort_keys=True))) if fuel == -1 else None))
             for r in des:
                 if r["prog"] in acc:
                     cases.append({"kind": "de", "prog": r["prog"], "data": r["data"], "ch0": r["ch0"], "dfuel": r["dfuel"]})
-                    meta.append(("de", r["prog"], r["ch0"], r["dfuel"], r["data"]))
+                    meta.append(("de", r["prog"], r["ch0"], r["dfuel"], r["data"], r["modes"]))
             imp, results = run_drivers_parallel(src, wt, accepted, types, cases)
             if imp:
                 v.violation("generated package not importable", imp.strip().splitlines()[-1], {"trace": imp})
@@ -65,7 +69,7 @@ def run(tier, corrupt=False):
                 n += 1
                 if "harness_error" in o:
                     raise MachineryError(o["harness_error"])
-                kind, prog, mode0, fuel, payload = m
+                kind, prog, mode0, fuel, payload, mmodes = m
                 if o.get("ctor_exc"):
                     continue
                 if o.get("exc") == "Fault":
@@ -77,6 +81,13 @@ def run(tier, corrupt=False):
                 bad = mode_violations(calls)
                 if end is not None and end != mode0:
                     bad.append({"cls": prog, "call": "top-level " + ("serialize" if kind == "ser" else "deserialize"), "entry": mode0, "exit": end, "raised": bool(o.get("exc"))})
+                # "never read or sanitised as chunked unless it says so, and vice versa": the mode in force at every primitive call
+                if mmodes is not None and not o.get("exc") == "TimeoutError" and o.get("modes") is not None and o["modes"] != mmodes:
+                    k_ = next((i for i, (a, b_) in enumerate(zip(o["modes"], mmodes)) if a != b_), min(len(o["modes"]), len(mmodes)))
+                    key = f"{prog} mode at primitive call #{k_ + 1} entry={mode0} fault_at={fuel} input={short(payload, 160)}"
+                    v.violation(key, f"primitive {'writer' if kind == 'ser' else 'reader'} call #{k_ + 1} ran with mode {o['modes'][k_] if k_ < len(o['modes']) else 'n/a'}, "
+                                     f"the declaration gives {mmodes[k_] if k_ < len(mmodes) else 'n/a'} (observed trace {o['modes'][:12]}, model {mmodes[:12]})",
+                                {"kind": kind, "prog": prog, "mode0": mode0, "fuel": fuel, "input": payload, "observed_modes": o["modes"], "model_modes": mmodes})
                 for b in bad[:2]:
                     key = f"{prog} {b['cls']}.{b['call']} entry={b['entry']} exit={b['exit']} raised={b['raised']} fault_at={fuel} input={short(payload, 160)}"
                     v.violation(key, f"{b['cls']}.{b['call']} was entered with mode {b['entry']} and left it {b['exit']} "
@@ -84,7 +95,7 @@ def run(tier, corrupt=False):
     cov = {"states": s1["states"] + s2["states"] + s3["states"], "transitions": s1["transitions"] + s2["transitions"] + s3["transitions"],
            "model_runs": [{"mode": "ser+faults", **s1}, {"mode": "hostile+faults", **s2}, {"mode": "bytes+faults", **s3}],
            "traces_validated_against_impl": n, "executions_that_hit_the_injected_fault": nfault, "programs": len(sel), "program_names": [p["name"] for p in sel],
-           "samples": [{"kind": meta[0][0], "prog": meta[0][1], "mode0": meta[0][2], "fault_at": meta[0][3]}, {"kind": meta[-1][0], "prog": meta[-1][1], "mode0": meta[-1][2], "fault_at": meta[-1][3], "data": meta[-1][4]}],
+           "samples": [{"kind": meta[0][0], "prog": meta[0][1], "mode0": meta[0][2], "fault_at": meta[0][3], "modes": meta[0][5]}, {"kind": meta[-1][0], "prog": meta[-1][1], "mode0": meta[-1][2], "fault_at": meta[-1][3], "data": meta[-1][4], "modes": meta[-1][5]}],
            "exhaustive": False,
            "explanation": "programs with chunked sections / nested structs / switches x both entry modes x bounded objects or corrupted bytes x failure injected at each of the first primitive calls"}
     return v.finish(cov, ["the corpus bounds 'all programs'", "faults are injected at primitive EoWriter/EoReader calls (add_*/get_*/next_chunk)"])
